@@ -908,13 +908,23 @@ func genC07(c *gctx, f2 bool) {
 		U = c.cty()
 	}
 	n := nameAlphabet[r.intn(len(nameAlphabet))]
-	ti := c.addFunc([]Field{{Name: n, Ty: U}}, c.fields(FStruct, r.intn(2)), FStruct, FStruct)
+	tparams := []Field{{Name: n, Ty: U}}
+	multi := !f2 && r.chance(35)
+	if multi {
+		// several named parameters, each to be converted from the input of its own name
+		for _, m := range nameAlphabet {
+			if m != n && len(tparams) < 2+r.intn(2) {
+				tparams = append(tparams, Field{Name: m, Ty: U})
+			}
+		}
+	}
+	ti := c.addFunc(tparams, c.fields(FStruct, r.intn(2)), FStruct, FStruct)
 	c.sc.Funcs[ti].Once = false
 	c.sc.Funcs[ti].Err = false
 	var convs []int
 	// the type-only converter T -> U (output type-only or named n)
 	out := Field{Ty: U}
-	if r.chance(30) {
+	if r.chance(30) && !multi {
 		out.Name = n
 	}
 	tc := c.addFunc([]Field{{Ty: T}}, []Field{out}, c.formFor([]Field{{Ty: T}}), c.formFor([]Field{out}))
@@ -937,8 +947,19 @@ func genC07(c *gctx, f2 bool) {
 			names = append(names, m)
 		}
 	}
+	if multi {
+		names = nil
+		for _, p := range tparams {
+			names = append(names, p.Name)
+		}
+	}
+	subbed := r.chance(30) // the competing inputs carry a subtype label; the parameter has none
 	for _, m := range names {
-		opts = append(opts, Opt{Kind: "named", Name: c.casing(m), Vals: []*Val{c.val(T)}})
+		if subbed && (m == n || r.chance(60)) {
+			opts = append(opts, Opt{Kind: "namedsub", Name: c.casing(m), Sub: "x", Vals: []*Val{c.val(T)}})
+		} else {
+			opts = append(opts, Opt{Kind: "named", Name: c.casing(m), Vals: []*Val{c.val(T)}})
+		}
 	}
 	// distractors over types disjoint from {T, U}
 	var other []int
